@@ -405,6 +405,121 @@ def _worker(args):
     return n, sub.violations, sub.cov.get("unspecified_union_without_alternative", 0)
 
 
+GENERIC_SRC = '''
+from dataclasses import dataclass
+from typing import Dict, Generic, List, Optional, TypeVar
+from apischema import deserializer, serializer
+
+T = TypeVar("T")
+
+
+@dataclass
+class Animal:
+    name: str
+
+
+@dataclass
+class Dog(Animal):
+    breed: str = "unknown"
+
+
+class Base(Generic[T]):
+    def __init__(self, item: T):
+        self.item = item
+
+    def __eq__(self, other):
+        return type(self) is type(other) and self.item == other.item
+
+    @serializer
+    def items(self) -> List[T]:
+        return [self.item]
+
+
+class Kennel(Base[Animal]):      # inherits the generic serializer, T := Animal
+    pass
+
+
+class Ints(Base[int]):
+    pass
+
+
+class Mid(Base[T]):              # still generic
+    pass
+
+
+class Strs(Mid[str]):            # two levels
+    pass
+
+
+class Wrapper(Generic[T]):
+    def __init__(self, w: T):
+        self.w = w
+
+    def __eq__(self, other):
+        return type(self) is type(other) and self.w == other.w
+
+
+@deserializer
+def wrap(x: List[T]) -> Wrapper[T]:
+    return Wrapper(x[0])
+'''
+
+
+def generic_law(rep: common.Report) -> int:
+    """Beyond the model (its conversions are between ground types): a GENERIC conversion g : C[T] -> S[T]; for a class
+    that fixes the argument, directly or by inheritance, the property's own equation on the real code:
+    serialize(C', v) = serialize(S[A], g(v)), and the schema of C' is the schema of S[A]."""
+    import types as _types
+    from typing import List
+
+    import apischema.cache
+    from apischema import deserialize, serialize
+    from apischema.json_schema import deserialization_schema, serialization_schema
+
+    mod = _types.ModuleType("verifconvgen")
+    sys.modules["verifconvgen"] = mod
+    exec(compile(GENERIC_SRC, "<verifconvgen>", "exec"), mod.__dict__)
+    apischema.cache.reset()
+    n = 0
+    cases = [("Base[Animal]", mod.Base[mod.Animal], mod.Base(mod.Dog("rex", "corgi")), List[mod.Animal]),
+             ("Kennel (Base[Animal])", mod.Kennel, mod.Kennel(mod.Dog("rex", "corgi")), List[mod.Animal]),
+             ("Ints (Base[int])", mod.Ints, mod.Ints(3), List[int]),
+             ("Strs (Mid[str], Mid(Base[T]))", mod.Strs, mod.Strs("s"), List[str]),
+             ("Base[int]", mod.Base[int], mod.Base(4), List[int])]
+    for label, tp, v, target in cases:
+        n += 1
+        try:
+            got, want = serialize(tp, v), serialize(target, v.items())
+            sgot, swant = norm(serialization_schema(tp)), norm(serialization_schema(target))
+        except Exception as exc:
+            rep.violation(f"generic conversion law: {label} raised {type(exc).__name__}: {exc}", {"type": label})
+            continue
+        if got != want:
+            rep.violation(f"generic conversion law: serialize({label}, v) = {got} but serialize of the converted value under the "
+                          f"substituted target gives {want}", {"type": label})
+        if sgot != swant:
+            rep.violation(f"generic conversion law: serialization_schema({label}) = {sgot} differs from the schema of the substituted "
+                          f"target {swant}", {"type": label})
+    for label, tp, d, target, want in (("Wrapper[int]", mod.Wrapper[int], [1], List[int], mod.Wrapper(1)),
+                                       ("Wrapper[str]", mod.Wrapper[str], ["a"], List[str], mod.Wrapper("a"))):
+        n += 1
+        try:
+            got = deserialize(tp, d)
+            sgot, swant = norm(deserialization_schema(tp)), norm(deserialization_schema(target))
+        except Exception as exc:
+            rep.violation(f"generic conversion law: {label} raised {type(exc).__name__}: {exc}", {"type": label})
+            continue
+        if got != want or sgot != swant:
+            rep.violation(f"generic conversion law: deserialize({label}, {d}) = {got!r} (expected {want!r}); schema {sgot} vs {swant}", {"type": label})
+        for bad in (["a"] if target is List[int] else [1]), 3:
+            try:
+                deserialize(tp, bad)
+                rep.violation(f"generic conversion law: deserialize({label}, {bad}) accepted although the substituted source {target} rejects it", {})
+            except Exception:
+                pass
+    return n
+
+
 def main() -> int:
     rep = common.Report("C12", "model_checking")
     tier = "thorough" if common.tier() == "thorough" else "quick"
@@ -440,6 +555,7 @@ def main() -> int:
                 n += cnt
                 rep.violations.extend(viols)
                 rep.add("unspecified_union_without_alternative", unspec)
+    rep.set("generic_conversion_law_cases", generic_law(rep))
     rep.set("states", states)
     rep.set("transitions", trans)
     rep.set("traces_validated_against_impl", n)
